@@ -6,6 +6,7 @@
   `WF32 g` : every slice length fits the 32-bit count field.  SRID 0 = absent.
 -/
 import OrbProofs.C01Lemmas
+import OrbProofs.C01Scanner
 
 namespace Orb.WKB
 
@@ -77,6 +78,25 @@ theorem wkbScan_prefix_witness (bnd : BoundFn) :
 /-- A decoded value re-encodes and decodes to itself (stability, used by C05). -/
 theorem reencode_stable (bs : Bytes) (g : G) (srid : Nat) (h : unmarshal bs = .ok (g, srid)) (o : Order) :
     unmarshal (encGeom o srid g) = .ok (g, srid) := reencode_stable' bs g srid h o
+
+/-- One `ewkb.GeometryScanner` value reused for many rows: what the caller observes after a `Scan`
+    (error, `Valid`, `Geometry`, and the SRID of a valid row) never depends on the rows scanned before. -/
+theorem ewkb_scanner_history_free (bnd : BoundFn) (p : Bool) (d : Dest) (σ σ' : ScanState) (x : ScanIn) :
+    (ewkbScanStep bnd p d σ x).map ScanState.observe = (ewkbScanStep bnd p d σ' x).map ScanState.observe :=
+  ewkbScanStep_history_free' bnd p d σ σ' x
+
+/-- A row written by the encoder reads, on a reused `ewkb.Scanner`, exactly as the coercion table says. -/
+theorem ewkb_scanner_reused_row (bnd : BoundFn) (d : Dest) (σ : ScanState) (o : Order) (srid : Nat) (g : G)
+    (hw : WF32 g) (hs : srid < 2^32) :
+    (ewkbScanStep bnd false d σ (.bytes (encGeom o srid g))).map ScanState.observe =
+      (match coerce bnd d (canon g) with
+       | some v => .ok (none, true, some v, srid)
+       | none => .ok (some .incorrectGeometry, false, none, 0)) := ewkbScanStep_encode' bnd d σ o srid g hw hs
+
+/-- The deprecated `wkb.GeometryScanner` is history free as well. -/
+theorem wkb_scanner_history_free (bnd : BoundFn) (d : Dest) (σ σ' : ScanState) (x : ScanIn) :
+    (wkbScanStep bnd d σ x).map ScanState.observe = (wkbScanStep bnd d σ' x).map ScanState.observe :=
+  wkbScanStep_history_free' bnd d σ σ' x
 
 /-- Non-vacuity: a concrete nested value meets the hypotheses, and its encoding is what Go writes
     (`01 07000020 E6100000 01000000 | 01 01000000 <x> <y>` for SRID 4326). -/
